@@ -438,6 +438,35 @@ def run_sharded(prop, binary, args, cases, seed, tier, nshards, timeout_s, repla
     return res
 
 
+def run_single_case(prop, binary, args, case, seed, tier, replay_dir, rlimit_as_gb=None, timeout=300):
+    """Runs exactly one case of an engine in its own process (optionally under an address-space limit) and returns
+    (exit code or None on timeout, parsed result JSON or None, stderr tail)."""
+    import resource
+    wd = work_dir("single")
+    out = os.path.join(wd, "out.json")
+    env = dict(os.environ)
+    env.update(SAN_ENV)
+    cmd = [binary, "--prop", prop, "--tier", tier, "--seed", str(seed), "--cases", str(10 ** 12), "--only", str(case), "--out", out,
+           "--replay-dir", replay_dir, "--work-dir", wd] + args
+
+    def limit():
+        if rlimit_as_gb:
+            b = int(rlimit_as_gb * (1 << 30))
+            resource.setrlimit(resource.RLIMIT_AS, (b, b))
+
+    try:
+        p = subprocess.run(cmd, stdout=subprocess.DEVNULL, stderr=subprocess.PIPE, env=env, cwd=wd, timeout=timeout, text=True, errors="replace", preexec_fn=limit)
+        rc, err = p.returncode, p.stderr[-3000:]
+    except subprocess.TimeoutExpired:
+        rc, err = None, "timeout"
+    d = None
+    if os.path.exists(out):
+        with open(out) as fh:
+            d = json.load(fh)
+    shutil.rmtree(wd, ignore_errors=True)
+    return rc, d, err
+
+
 # --------------------------------------------------------------------------- findings
 def load_known():
     """KNOWN_FINDINGS.txt: lines `open: property=<id> key=<key> <what fails>` suppress
